@@ -41,6 +41,10 @@ func (s *Translator) currentQuantifierTarget() (optimize.QuantifierTarget, bool)
 }
 
 func (s *Translator) prepareFilterExpression(filterExpression *cypher.FilterExpression) error {
+	if currentPart := s.query.CurrentPart(); currentPart.currentPattern == nil {
+		// A quantifier may appear in a query part that has no MATCH before it (RETURN, UNWIND, WITH only)
+		currentPart.currentPattern = &Pattern{}
+	}
 
 	quantifierExpressionTree := NewExpressionTreeTranslator(s.kindMapper)
 	s.query.CurrentPart().stashedExpressionTreeTranslator = s.treeTranslator
@@ -91,6 +95,9 @@ func (s *Translator) translateFilterExpression(filterExpression *cypher.FilterEx
 
 		if constraints, err := s.treeTranslator.ConsumeAllConstraints(); err != nil {
 			return err
+		} else if constraints.Expression == nil {
+			// The grammar allows `all(x in list)` without a predicate
+			return fmt.Errorf("filter expression has no where predicate")
 		} else {
 			var nestedQuery pgsql.Expression
 
